@@ -1,9 +1,9 @@
 SPECIFICATION Spec
 CONSTANTS
-  GenFiles = {1, 3, 4}
+  GenFiles = {1, 2, 3}
   OtherFiles = {}
-  Modes = {292, 420}
-  Variants = {0, 2}
+  Modes = {292, 420, 384}
+  Variants = {0, 1, 2, 3}
   ChmodGate = TRUE
   CopyGate = TRUE
   Truncates = TRUE
